@@ -303,6 +303,8 @@ func c19CheckCursor(ctx *core.Ctx, data []byte, want []string, window int, sig s
 			return
 		}
 	}
+	// any path, shredded or not, navigated through the same reader (c19_nav.go)
+	c19CheckCursorPaths(ctx, data, want, window, sig, detail)
 }
 
 // ---------------------------------------------------------------- dictionary / page layout stream
